@@ -369,7 +369,7 @@ class MQTTProtocol(MQTTBaseProtocol):
         
         if isinstance(request.topics, str):
             request.topics = [(request.topics, request.qos)] 
-        elif isinstance(request.topics, tuple):
+        elif isinstance(request.topics, tuple) and len(request.topics) == 2:
             request.topics = [(request.topics[0], request.topics[1])] 
         try:
             self._checkSubscribe(request)
@@ -510,7 +510,7 @@ class MQTTProtocol(MQTTBaseProtocol):
         if len(self.factory.windowSubscribe[self.addr]) >= self._window:
             raise MQTTWindowError("subscription requests exceeded limit", self._window)
         if not isinstance(request.topics, list):
-            raise TopicTypeError(type(topic))
+            raise TopicTypeError(type(request.topics))
         for (topic, qos) in request.topics:
             if not ( 0<= qos < 3):
                 raise QoSValueError("subscribe", qos)
@@ -524,7 +524,7 @@ class MQTTProtocol(MQTTBaseProtocol):
         if len(self.factory.windowUnsubscribe[self.addr]) >= self._window:
             raise MQTTWindowError("unsubscription requests exceeded limit", self._window)
         if not isinstance(request.topics, list):
-            raise TopicTypeError(type(topic))
+            raise TopicTypeError(type(request.topics))
 
     # --------------------------
     # Helper methods (publisher)
